@@ -219,6 +219,10 @@ func (r *renderer) path(x *Expr) {
 	for i, s := range x.Steps {
 		switch {
 		case s.DS && r.abbr():
+			if i == 0 && !x.Abs && first {
+				// a relative path cannot begin with '//': './/step'
+				r.emit(".")
+			}
 			r.emit("//")
 		case s.DS:
 			if i > 0 || x.Abs || !first {
